@@ -81,7 +81,7 @@ class Suite:
         self.lines.append(line)
         r = safe(thunk)
         self.impl.append(r)
-        self.dist[(tag or line.split(" ", 2)[1]) + ":" + ("ok" if r.startswith("ok") else r[4:])] += 1
+        self.dist[(tag or line.split(" ", 2)[1]) + ":" + (("None" if r == "ok None" else "ok") if r.startswith("ok") else r[4:])] += 1
         if len(self.lines) >= self.batch:
             self.flush()
 
